@@ -64,7 +64,8 @@ def run(ctx):
     ctx.rule("R16.1", "guard covers parked outputs: lhs of the fill guard depends on the slot-map counter and on "
                       "BinaryHeap::len of the parked heap; rhs is capacity(); every PUSH on every feasible path is behind G(true)")
     n = 0
-    for b in adapter_fns(ctx, R):
+    from adapters import upstream_pollers
+    for b in upstream_pollers(ctx, R):
         m = AdapterModel(ctx, R, b)
         if not (m.qty or "").startswith("futures_ordered_bounded::FuturesOrderedBounded<"):
             continue
@@ -99,6 +100,9 @@ def run(ctx):
                     armed = False
         ctx.ob("R16.1", b, "one-pull-per-true-guard", not bad and npush > 0, d_loc(b), "push events %d; unguarded: %s" % (npush, ev_str(bad[0]) if bad else "-"))
     ctx.floor("R16.1", "ordered-adapters", n, 2)
+    c02.r2_5(ctx, R)
+    ctx.rule("R2.5", "see C02 R2.5 (shared): in the ordered poll_next an out-of-turn output goes into the parked heap (which len() "
+                     "counts) or is returned -- it is never held anywhere else, where the guard would not see it")
     import c15
     c15.r15_3(ctx, R, counter)
     ctx.rule("R15.3", "see C15 R15.3 (shared link): len() of the ordered collection is running + parked; observers agree")
